@@ -486,6 +486,11 @@ def run_atheris(ctx):
                 viols = [Violation("C06:atheris:target-failure", "libFuzzer input fails in the fuzz target but not in run_case: %s" % msg[0][:200])]
             ctx.observe(case, viols, True, ["atheris"])
         if r.returncode != 0 and not crashes:
+            if "No module named 'atheris'" in r.stdout:
+                # the optional byte-level engine is not installed (setup.sh could not install it): the campaign is skipped, which
+                # the evidence shows; the Hypothesis / enumeration parts decide
+                ctx.notes["atheris_summary"] = "skipped: atheris not importable"
+                return
             raise RuntimeError("atheris campaign failed: " + r.stdout[-600:])
         ctx.count({"kind": "atheris-campaign", "runs": runs, "seeded_corpus": ctx.shard.get("k", 0) % 2 == 0}, True, ["atheris-campaign"])
     finally:
